@@ -61,6 +61,17 @@ pub fn reset() {
     let _ = write_crates(&root, &[]);
 }
 
+/// the file of a diagnostic span; a span inside a macro (vec!, a derive) is followed to its call site in a case file c<n>.rs
+pub fn site(s: &serde_json::Value) -> Option<String> {
+    let f = s["file_name"].as_str()?.to_string();
+    let ours = f.rsplit('/').next().map_or(false, |n| n.starts_with('c') && n.ends_with(".rs") && n.len() > 4 && n[1..n.len() - 3].chars().all(|c| c.is_ascii_digit()));
+    if ours || s["expansion"].is_null() {
+        Some(f)
+    } else {
+        site(&s["expansion"]["span"]).or(Some(f))
+    }
+}
+
 /// build once; returns per case index the first error attributed to its file
 fn build(root: &str) -> Result<HashMap<usize, String>, String> {
     let out = Command::new("cargo")
@@ -96,11 +107,11 @@ fn build(root: &str) -> Result<HashMap<usize, String>, String> {
         if let Some(spans) = m["spans"].as_array() {
             for s in spans {
                 if s["is_primary"] == true {
-                    file = s["file_name"].as_str().map(|x| x.to_string());
+                    file = site(s);
                 }
             }
             if file.is_none() {
-                file = spans.first().and_then(|s| s["file_name"].as_str()).map(|x| x.to_string());
+                file = spans.first().and_then(site);
             }
         }
         if let Some(f) = file {
@@ -109,7 +120,7 @@ fn build(root: &str) -> Result<HashMap<usize, String>, String> {
                 continue;
             }
         }
-        return Err(format!("unattributable rustc error in the wire workspace: {code} {msg}"));
+        return Err(format!("unattributable rustc error in the wire workspace: {code} {msg} (spans: {})", m["spans"].as_array().map(|a| a.iter().map(|s| format!("{}:{}", s["file_name"].as_str().unwrap_or("?"), s["line_start"])).collect::<Vec<_>>().join(", ")).unwrap_or_default()));
     }
     if !saw_any && !out.status.success() {
         return Err(format!("cargo build failed without diagnostics: {}", String::from_utf8_lossy(&out.stderr).chars().rev().take(600).collect::<String>().chars().rev().collect::<String>()));
